@@ -143,6 +143,25 @@ CLAIMED.update({
              technique="Rocq proof over key-set and re-keying models (on top of the C10 hash contract) + differential correspondence with colliding keys", design="5/C16"),
 })
 
+CLAIMED["C01"]["text"] = ("Coq proofs, for ALL schemas, values, flavours and both JSON modes, that decoding the encoder's output yields the expected value: ROR2 down to bytes over the cursor-level reader model "
+    "(c01_ror2_decode_roundtrip: escaping tables of the current tree, token lemmas, records in any order, includes, unions, defaults), JSON down to bytes (c01_json: tree-level round trip, parse_json(render_json d) = to_jdoc d for compact and pretty, "
+    "top-level decode_json), both formats decode to the SAME value (json_ror2_same_value); the exact side conditions are stated and their necessity refuted by witnesses (JSON strings/keys must be valid UTF-8; NaN excluded by typing). "
+    "The model is tied to the code on every run: ~2.5k family values (every metacharacter, single-byte sweep over all 256 bytes) encoded and decoded by the real generated bindings in the 5 wire formats; the model must produce the same bytes and values; "
+    "the round-trip predicate (Equals + structural equality) is evaluated on the implementation directly.")
+CLAIMED["C06"]["text"] = ("Coq proofs for ALL schemas and well-shaped documents over the JSON-tree decoder model: the reported missing set equals an independent declarative specification (missing_exact), the result is independent of member order at every depth, "
+    "unknown fields of any shape are skipped, optional/defaulted fields are never reported, with refuted witnesses for the top-level non-record case (known finding D33); the cursor-level ROR2 reader is being proved to refine the tree decoder (Props/C06_ror2.v when present). "
+    "Correspondence + independent oracle: reference encodings mutated by deleting random field subsets at every depth, nulling, permuting keys, injecting unknown fields, decoded by the JSON, ROR2, query-parameter (aggregate) and untyped readers; "
+    "client level: the generated strict and lenient clients on mutated replies (exact field set with the value kept / no error with the partial value).")
+CLAIMED["C11"]["text"] = ("Coq proofs for ALL schemas and values: an invalid value (union with 0 or >= 2 members, illegal enum constant) is never emitted and every typed valid value is, unions decode to exactly one member, fixed sizes are enforced, unknown enum symbols become the unknown value "
+    "(JSON tree and ROR2 cursor level); partial updates: CheckFields accepts exactly the legal patches, encoding succeeds iff legal at any nesting depth, delete-list decoding, excluded touches fail before sending and are rejected by the server-side reader "
+    "(Props/C11_patch.v; general patch round trip not proved: example + differential run). Correspondence + oracle: values drawn with violations allowed, invalid documents, every assignment of {none, delete, set, nested patch} to each field of small records x exclusion specs "
+    "through the real generated code.")
+CLAIMED["C11"]["note"] = CODEC_NOTE + " Known findings: generated partial-update structs mishandle fields inherited through included records (patch:includes:*); D33 witness (top-level array of records with an empty required union)."
+CLAIMED["C13"]["text"] = ("Coq proofs for ALL schemas and documents over the decoder model: every own defaulted field absent from the document holds exactly the decoded literal, a present value wins, defaults are never reported missing; refuted witnesses for the two gaps of the generated code "
+    "(defaults of included records - known finding D28; a top-level record that raises the missing-fields error skips its own defaults). Correspondence + oracle: documents omitting random subsets of defaulted fields (direct, nested, included; primitive, enum, fixed, bytes, record, union, "
+    "array and map defaults) decoded by the JSON, ROR2 and untyped readers; New...WithDefaultValues constructors; freshness of default-populated values (elements included) across decoded and constructed instances.")
+CLAIMED["C07"]["text"] = CLAIMED["C07"]["text"] + " Partial updates (Props/C11_patch.v): a patch touching an excluded field fails on the client before anything is sent and is rejected by the server-side reader with the per-method leading-scope offsets."
+
 def main():
     checks, na = [], []
     for p in ALL:
